@@ -458,5 +458,221 @@ func (ds *Datasource) versionURL(r versionRef) string {
 		{Name: "notfound-as-type-switch", File: "osmapi/datasource.go",
 			Find:    "\tif err == nil {\n\t\treturn false\n\t}\n\n\t_, ok := err.(*NotFoundError)\n\treturn ok\n",
 			Replace: "\tswitch err.(type) {\n\tcase *NotFoundError:\n\t\treturn true\n\tdefault:\n\t\treturn false\n\t}\n"},
+		{Name: "status-table-map-of-constructors", File: "osmapi/datasource.go",
+			Find: `	if resp.StatusCode == http.StatusNotFound {
+		return &NotFoundError{URL: url}
+	}
+
+	if resp.StatusCode == http.StatusForbidden {
+		return &ForbiddenError{URL: url}
+	}
+
+	if resp.StatusCode == http.StatusGone {
+		return &GoneError{URL: url}
+	}
+
+	if resp.StatusCode == http.StatusRequestURITooLong {
+		return &RequestURITooLongError{URL: url}
+	}
+
+	if resp.StatusCode != http.StatusOK {
+		return &UnexpectedStatusCodeError{
+			Code: resp.StatusCode,
+			URL:  url,
+		}
+	}
+
+	return xml.NewDecoder(resp.Body).Decode(item)
+}
+`,
+			Replace: `	if resp.StatusCode == http.StatusOK {
+		return xml.NewDecoder(resp.Body).Decode(item)
+	}
+
+	if newError, ok := statusErrors[resp.StatusCode]; ok {
+		return newError(url)
+	}
+
+	return &UnexpectedStatusCodeError{Code: resp.StatusCode, URL: url}
+}
+
+var statusErrors = map[int]func(url string) error{
+	http.StatusNotFound: func(url string) error { return &NotFoundError{URL: url} },
+	http.StatusForbidden: func(url string) error { return &ForbiddenError{URL: url} },
+	http.StatusGone: func(url string) error { return &GoneError{URL: url} },
+	http.StatusRequestURITooLong: func(url string) error { return &RequestURITooLongError{URL: url} },
+}
+`},
+		{Name: "status-table-map-consulted-before-ok-test", File: "osmapi/datasource.go",
+			Find: `	if resp.StatusCode == http.StatusNotFound {
+		return &NotFoundError{URL: url}
+	}
+
+	if resp.StatusCode == http.StatusForbidden {
+		return &ForbiddenError{URL: url}
+	}
+
+	if resp.StatusCode == http.StatusGone {
+		return &GoneError{URL: url}
+	}
+
+	if resp.StatusCode == http.StatusRequestURITooLong {
+		return &RequestURITooLongError{URL: url}
+	}
+
+	if resp.StatusCode != http.StatusOK {
+		return &UnexpectedStatusCodeError{
+			Code: resp.StatusCode,
+			URL:  url,
+		}
+	}
+
+	return xml.NewDecoder(resp.Body).Decode(item)
+}
+`,
+			Replace: `	if newError, ok := statusErrors[resp.StatusCode]; ok {
+		return newError(url)
+	}
+
+	if resp.StatusCode != http.StatusOK {
+		return &UnexpectedStatusCodeError{Code: resp.StatusCode, URL: url}
+	}
+
+	return xml.NewDecoder(resp.Body).Decode(item)
+}
+
+var statusErrors = map[int]func(url string) error{
+	http.StatusNotFound: func(url string) error { return &NotFoundError{URL: url} },
+	http.StatusForbidden: func(url string) error { return &ForbiddenError{URL: url} },
+	http.StatusGone: func(url string) error { return &GoneError{URL: url} },
+	http.StatusRequestURITooLong: func(url string) error { return &RequestURITooLongError{URL: url} },
+}
+`},
+		{Name: "status-table-slice-of-code-constructor-pairs-scanned", File: "osmapi/datasource.go",
+			Find: `	if resp.StatusCode == http.StatusNotFound {
+		return &NotFoundError{URL: url}
+	}
+
+	if resp.StatusCode == http.StatusForbidden {
+		return &ForbiddenError{URL: url}
+	}
+
+	if resp.StatusCode == http.StatusGone {
+		return &GoneError{URL: url}
+	}
+
+	if resp.StatusCode == http.StatusRequestURITooLong {
+		return &RequestURITooLongError{URL: url}
+	}
+
+	if resp.StatusCode != http.StatusOK {
+		return &UnexpectedStatusCodeError{
+			Code: resp.StatusCode,
+			URL:  url,
+		}
+	}
+
+	return xml.NewDecoder(resp.Body).Decode(item)
+}
+`,
+			Replace: `	for _, e := range statusTable {
+		if e.code == resp.StatusCode {
+			return e.newError(url)
+		}
+	}
+
+	if resp.StatusCode != http.StatusOK {
+		return &UnexpectedStatusCodeError{Code: resp.StatusCode, URL: url}
+	}
+
+	return xml.NewDecoder(resp.Body).Decode(item)
+}
+
+var statusTable = []struct {
+	code     int
+	newError func(url string) error
+}{
+	{http.StatusNotFound, newNotFound},
+	{http.StatusForbidden, func(u string) error { return &ForbiddenError{URL: u} }},
+	{http.StatusGone, func(u string) error { return &GoneError{URL: u} }},
+	{http.StatusRequestURITooLong, func(u string) error { return &RequestURITooLongError{URL: u} }},
+}
+
+func newNotFound(u string) error { return &NotFoundError{URL: u} }
+`},
+		{Name: "status-table-local-array-index-loop-nil-test", File: "osmapi/datasource.go",
+			Find: `	if resp.StatusCode == http.StatusNotFound {
+		return &NotFoundError{URL: url}
+	}
+
+	if resp.StatusCode == http.StatusForbidden {
+		return &ForbiddenError{URL: url}
+	}
+
+	if resp.StatusCode == http.StatusGone {
+		return &GoneError{URL: url}
+	}
+
+	if resp.StatusCode == http.StatusRequestURITooLong {
+		return &RequestURITooLongError{URL: url}
+	}
+
+	if resp.StatusCode != http.StatusOK {
+		return &UnexpectedStatusCodeError{
+			Code: resp.StatusCode,
+			URL:  url,
+		}
+	}
+
+	return xml.NewDecoder(resp.Body).Decode(item)
+}
+`,
+			Replace: `	type entry struct {
+		code int
+		mk   func(string) error
+	}
+	table := [...]entry{
+		{code: http.StatusGone, mk: func(u string) error { return &GoneError{URL: u} }},
+		{code: http.StatusNotFound, mk: func(u string) error { return &NotFoundError{URL: u} }},
+		{code: http.StatusRequestURITooLong, mk: func(u string) error { return &RequestURITooLongError{URL: u} }},
+		{code: http.StatusForbidden, mk: func(u string) error { return &ForbiddenError{URL: u} }},
+		{code: http.StatusOK},
+	}
+	for i := 0; i < len(table); i++ {
+		if table[i].code != resp.StatusCode {
+			continue
+		}
+		if mk := table[i].mk; mk != nil {
+			return mk(url)
+		}
+		return xml.NewDecoder(resp.Body).Decode(item)
+	}
+
+	return &UnexpectedStatusCodeError{Code: resp.StatusCode, URL: url}
+}
+`},
+		{Name: "limit-bounds-in-package-level-struct", File: "osmapi/options.go",
+			Find: `func (o *limit) applyNotes(p []string) ([]string, error) {
+	if o.n < 1 || 10000 < o.n {
+		return nil, errors.New("osmapi: limit must be between 1 and 10000")
+	}
+	return append(p, fmt.Sprintf("limit=%d", o.n)), nil
+}
+`,
+			Replace: `func (o *limit) applyNotes(p []string) ([]string, error) {
+	if o.n < notesLimit.min || o.n > notesLimit.max {
+		return nil, errors.New("osmapi: limit must be between 1 and 10000")
+	}
+	return append(p, fmt.Sprintf("limit=%d", o.n)), nil
+}
+
+var notesLimit = struct{ min, max int }{min: 1, max: 10000}
+`},
+		{Name: "user-format-looked-up-in-local-map", File: "osmapi/user.go",
+			Find: `	url := fmt.Sprintf("%s/user/%d", ds.baseURL(), id)
+`,
+			Replace: `	formats := map[string]string{"user": "%s/user/%d", "note": "%s/notes/%d"}
+	url := fmt.Sprintf(formats["user"], ds.baseURL(), id)
+`},
 	}
 }
